@@ -689,3 +689,91 @@ Proof.
   - destruct (mem (ascii_lower_s name) seen) eqn:E; [|eauto].
     apply IH; rewrite (timeout_next_grows _ _ H12 (ascii_lower_length name)); lia.
 Qed.
+
+From Coq Require FinFun.
+(* ---------- renameTimeout always ends, from the name it is started with ---------- *)
+(* the candidates: six fixed names, then "operTimeout" followed by more and more 1s *)
+Definition ones (k : nat) : runes := repeat 49%N k.
+Definition cand (i : nat) : runes :=
+  match i with
+  | 0 => s "timeout" | 1 => s "requestTimeout" | 2 => s "httpRequestTimeout" | 3 => s "swaggerTimeout"
+  | 4 => s "operationTimeout" | 5 => s "opTimeout"
+  | S (S (S (S (S (S k))))) => s "operTimeout" ++ ones k
+  end.
+Definition lcand (i : nat) : runes := ascii_lower_s (cand i).
+
+Lemma ascii_lower_app a b : ascii_lower_s (a ++ b) = ascii_lower_s a ++ ascii_lower_s b.
+Proof. unfold ascii_lower_s. apply map_app. Qed.
+Lemma ascii_lower_ones k : ascii_lower_s (ones k) = ones k.
+Proof. induction k as [|k IH]; [reflexivity|]. cbn [ones repeat ascii_lower_s map] in *. f_equal. exact IH. Qed.
+Lemma ones_snoc k : ones k ++ s "1" = ones (S k).
+Proof. induction k as [|k IH]; [reflexivity|]. cbn [ones repeat app] in *. f_equal. exact IH. Qed.
+
+Lemma lcand_tail k : lcand (6 + k) = s "opertimeout" ++ ones k.
+Proof. unfold lcand. cbn [cand Nat.add]. rewrite ascii_lower_app, ascii_lower_ones. reflexivity. Qed.
+
+(* the step of renameTimeout walks the candidates in order *)
+Lemma cand_next i : timeout_next (lcand i) (cand i) = cand (S i).
+Proof.
+  do 6 (destruct i as [|i]; [vm_compute; reflexivity|]).
+  change (S (S (S (S (S (S i)))))) with (6 + i). rewrite lcand_tail. unfold timeout_next.
+  (* "opertimeout…" differs from each fixed name within its first five runes *)
+  repeat match goal with |- context [runes_eqb (s "opertimeout" ++ ones i) ?c] =>
+    replace (runes_eqb (s "opertimeout" ++ ones i) c) with false by (vm_compute; reflexivity) end.
+  cbn [cand Nat.add]. rewrite <- app_assoc, ones_snoc. reflexivity.
+Qed.
+
+Lemma lcand_length i : 6 <= i -> length (lcand i) = 5 + i.
+Proof.
+  intro H. replace i with (6 + (i - 6)) at 1 by lia. rewrite lcand_tail, app_length. unfold ones. rewrite repeat_length.
+  change (length (s "opertimeout")) with 11. lia.
+Qed.
+
+(* no two candidates have the same lower-cased name *)
+Lemma lcand_inj i j : lcand i = lcand j -> i = j.
+Proof.
+  intro H. destruct (Nat.lt_ge_cases i 6) as [Hi|Hi]; destruct (Nat.lt_ge_cases j 6) as [Hj|Hj].
+  - do 6 (destruct i as [|i]; [do 6 (destruct j as [|j]; [vm_compute in H; first [reflexivity|discriminate]|]); lia|]). lia.
+  - exfalso. pose proof (f_equal (@length _) H) as L. rewrite (lcand_length j Hj) in L.
+    replace j with (6 + (j - 6)) in H by lia. rewrite lcand_tail in H.
+    do 6 (destruct i as [|i]; [vm_compute in H; discriminate H|]). lia.
+  - exfalso. replace i with (6 + (i - 6)) in H by lia. rewrite lcand_tail in H.
+    do 6 (destruct j as [|j]; [vm_compute in H; discriminate H|]). lia.
+  - pose proof (f_equal (@length _) H) as L. rewrite (lcand_length i Hi), (lcand_length j Hj) in L. lia.
+Qed.
+
+Lemma rename_timeout_walk seen : forall fuel i,
+  (exists j, i <= j < i + fuel /\ mem (lcand j) seen = false) -> exists r, rename_timeout fuel seen (cand i) = Some r.
+Proof.
+  induction fuel as [|f IH]; intros i [j [Hj Hm]]; [lia|]. cbn [rename_timeout]. fold (lcand i).
+  destruct (mem (lcand i) seen) eqn:E; [|eauto]. rewrite cand_next. apply IH. exists j. split; [|exact Hm].
+  destruct (Nat.eq_dec i j) as [->|Hne]; [congruence|lia].
+Qed.
+
+(* more distinct names than [seen] has entries cannot all be in [seen] *)
+Lemma fresh_candidate seen : exists j, j < S (length seen) /\ mem (lcand j) seen = false.
+Proof.
+  destruct (forallb (fun j => mem (lcand j) seen) (seq 0 (S (length seen)))) eqn:F.
+  - exfalso. rewrite forallb_forall in F.
+    assert (NoDup (map lcand (seq 0 (S (length seen))))) as ND.
+    { apply FinFun.Injective_map_NoDup; [intros a b; apply lcand_inj|apply seq_NoDup]. }
+    assert (incl (map lcand (seq 0 (S (length seen)))) seen) as I.
+    { intros x Hx. rewrite in_map_iff in Hx. destruct Hx as [j [<- Hj]]. apply mem_In. apply F, Hj. }
+    pose proof (NoDup_incl_length ND I) as L. rewrite map_length, seq_length in L. exact (Nat.nle_succ_diag_l _ L).
+  - assert (exists j, In j (seq 0 (S (length seen))) /\ mem (lcand j) seen = false) as [j [Hj Hm]].
+    { clear -F. induction (seq 0 (S (length seen))) as [|a l IH]; [discriminate|]. cbn [forallb] in F.
+      destruct (mem (lcand a) seen) eqn:E.
+      - cbn [andb] in F. destruct (IH F) as [j [Hj Hm]]. exists j. split; [right; exact Hj|exact Hm].
+      - exists a. split; [left; reflexivity|exact E]. }
+    exists j. split; [|exact Hm]. apply in_seq in Hj. lia.
+Qed.
+
+Theorem rename_timeout_total seen fuel : length seen < fuel -> exists r, rename_timeout fuel seen (s "timeout") = Some r.
+Proof.
+  intro H. change (s "timeout") with (cand 0). apply rename_timeout_walk.
+  destruct (fresh_candidate seen) as [j [Hj Hm]]. exists j. split; [|exact Hm].
+  change (j < S (@length runes seen)) in Hj. lia.
+Qed.
+
+Theorem timeout_name_total u params : exists r, timeout_name u params = Some r.
+Proof. unfold timeout_name. apply rename_timeout_total. rewrite map_length. lia. Qed.
